@@ -344,7 +344,7 @@ type EvCase struct {
 func (c EvCase) canon() string { b, _ := json.Marshal(c); return string(b) }
 
 var allEvents = []string{"create", "write", "remove", "rename", "chmod"}
-var evFiles = []string{"src/w1.go", "src/w2.go", "src/ex.go", "other.txt"}
+var evFiles = []string{"src/w1", "src/w1.go", "src/w2.go", "src/ex.go", "other.txt"} // src/w1 is a textual prefix of src/w1.go
 
 func runEvents(c EvCase, dir string, scale int) (err error, timing bool) {
 	tree := filepath.Join(dir, "tree")
@@ -366,7 +366,7 @@ func runEvents(c EvCase, dir string, scale int) (err error, timing bool) {
 	os.Remove(log)
 	cfg := gen.Map{
 		{K: "tasks", V: gen.Map{{K: "t", V: gen.Map{{K: "command", V: fmt.Sprintf("printf 'EV %%s %%s\\n' \"$EventName\" \"$EventPath\" >> %s", log)}}}}},
-		{K: "watchers", V: gen.Map{{K: "w", V: gen.Map{{K: "watch", V: gen.List{"src/*.go"}}, {K: "exclude", V: gen.List{"src/ex*"}}, {K: "events", V: toList(c.Sub)}, {K: "task", V: "t"}}}}},
+		{K: "watchers", V: gen.Map{{K: "w", V: gen.Map{{K: "watch", V: gen.List{"src/w*", "src/*.go"}}, {K: "exclude", V: gen.List{"src/ex*"}}, {K: "events", V: toList(c.Sub)}, {K: "task", V: "t"}}}}},
 	}
 	os.WriteFile(filepath.Join(tree, "w.yaml"), []byte(gen.YAML(cfg)), 0o644)
 	cmd := exec.Command(drv.Bin(), "-c", "w.yaml", "watch", "w")
@@ -497,7 +497,7 @@ func TestEvents(t *testing.T) {
 		}
 		gone := map[string]bool{}
 		for i := rapid.IntRange(1, 6).Draw(rt, "nops"); i > 0; i-- {
-			f := rapid.SampledFrom([]string{"src/w1.go", "src/w1.go", "src/w2.go", "src/ex.go", "other.txt"}).Draw(rt, "file")
+			f := rapid.SampledFrom([]string{"src/w1", "src/w1.go", "src/w1.go", "src/w2.go", "src/ex.go", "other.txt"}).Draw(rt, "file")
 			kind := rapid.SampledFrom([]string{"write", "write", "chmod", "chmod", "remove", "rename"}).Draw(rt, "kind")
 			if gone[f] {
 				continue
@@ -537,6 +537,37 @@ func TestEvents(t *testing.T) {
 		drv.Sample(c)
 		decideEvents(rt, c, dir)
 	})
+}
+
+// TestEventPairs enumerates two-step histories: every operation kind on every observed file A,
+// followed by a write on every other observed file B (also when A's name is a textual prefix of B's):
+// what happens to A must not stop the watcher from serving B.
+func TestEventPairs(t *testing.T) {
+	root := t.TempDir()
+	idx, nsh := drv.Shard()
+	observed := []string{"src/w1", "src/w1.go", "src/w2.go"}
+	k := 0
+	for _, kind := range []string{"rename", "remove", "write", "chmod"} {
+		for _, a := range observed {
+			for _, b := range observed {
+				if a == b {
+					continue
+				}
+				k++
+				if k%nsh != idx {
+					continue
+				}
+				c := EvCase{Ops: []Op{{kind, a}, {"write", b}}}
+				dir := filepath.Join(root, fmt.Sprint("p", k))
+				drv.Eval("pair-first=" + kind)
+				drv.NonTrivial(c.canon())
+				drv.Sample(c)
+				decideEvents(t, c, dir)
+				os.RemoveAll(dir)
+			}
+		}
+	}
+	drv.SetExhaustive()
 }
 
 func TestReplay(t *testing.T) {
